@@ -61,23 +61,25 @@ AbstractMemberFillers == MemberFillers \cup {
 OptPrefix(tag, types) == WithPrefix(tag, <<"?", ":">>, types)
 
 FillersOfKind(k) ==
-  CASE k = "@annv"  -> WithPrefix("ann", <<":">>, AllTypes) \cup {F(<<"ann-glue-ge">>, {"amb", "rich"}, <<":", "A", "<", "B", ">", "<GLUE>">>)}
+  CASE k = "@annv"  -> WithPrefix("ann", <<":">>, AllTypes) \cup {F(<<"ann-glue-ge">>, {"amb"}, <<":", "A", "<", "B", ">", "<GLUE>">>), F(<<"ann-glue-shr-eq">>, {"amb"}, <<":", "A", "<", "B", "<", "C", ">", ">", "<GLUE>">>)}
     [] k = "@annl"  -> WithPrefix("ann", <<":">>, NoUnique) \cup WithPrefix("ann-definite", <<"!", ":">>, CoreTypes)
     [] k = "@annp"  -> WithPrefix("ann", <<":">>, NoUnique) \cup OptPrefix("ann-opt", CoreTypes \cup {TypeByName("t-cond"), TypeByName("t-obj")})
                        \cup {F(<<"opt">>, {"amb"}, <<"?">>)}
     [] k = "@annpn" -> WithPrefix("ann", <<":">>, NoUnique)           \* a parameter that is followed by a required one
-    [] k = "@annpd" -> WithPrefix("ann", <<":">>, NoUnique) \cup {F(<<"ann-glue-ge">>, {"amb", "rich"}, <<":", "A", "<", "B", ">", "<GLUE>">>)}   \* before "= default"
+    [] k = "@annpd" -> WithPrefix("ann", <<":">>, NoUnique) \cup {F(<<"ann-glue-ge">>, {"amb"}, <<":", "A", "<", "B", ">", "<GLUE>">>), F(<<"ann-glue-shr-eq">>, {"amb"}, <<":", "A", "<", "B", "<", "C", ">", ">", "<GLUE>">>)}   \* before "= default"
     [] k = "@annpr" -> WithPrefix("ann", <<":">>, ArrayTypes)         \* rest parameter
     [] k = "@annf"  -> WithPrefix("ann", <<":">>, AllTypes) \cup OptPrefix("ann-opt", CoreTypes) \cup WithPrefix("ann-definite", <<"!", ":">>, CoreTypes)
                        \cup {F(<<"opt">>, {"amb"}, <<"?">>), F(<<"definite">>, {"amb", "rich"}, <<"!">>)}
     [] k = "@annfi" -> WithPrefix("ann", <<":">>, AllTypes) \cup OptPrefix("ann-opt", CoreTypes)
-                       \cup {F(<<"ann-glue-ge">>, {"amb", "rich"}, <<":", "A", "<", "B", ">", "<GLUE>">>)}        \* field with initialiser
+                       \cup {F(<<"ann-glue-ge">>, {"amb"}, <<":", "A", "<", "B", ">", "<GLUE>">>), F(<<"ann-glue-shr-eq">>, {"amb"}, <<":", "A", "<", "B", "<", "C", ">", ">", "<GLUE>">>)}        \* field with initialiser
     [] k = "@annfp" -> WithPrefix("ann", <<":">>, NoUnique)           \* private-name field
     [] k = "@annc"  -> {F(<<"ann", "t-any">>, {}, <<":", "any">>), F(<<"ann", "t-unknown">>, {}, <<":", "unknown">>)}
     [] k = "@ret"   -> WithPrefix("ret", <<":">>, NoUnique)
     [] k = "@retp"  -> WithPrefix("ret", <<":">>, CoreTypes \cup PredTypes)
     [] k = "@retm"  -> WithPrefix("ret", <<":">>, CoreTypes \cup PredTypes \cup ThisPredTypes)
     [] k = "@reta"  -> Wrapped("ret", <<":">>, NoUnique, <<>>, {"amb"})        \* arrow return type
+                       \cup {F(<<"ret-glue-arrow">>, {"amb"}, <<":", "A", "<", "B", ">", "<GLUE>">>),      \* ":A<B>=>" : ">=" then ">"
+                             F(<<"ret-glue-arrow-2">>, {"amb"}, <<":", "A", "<", "B", "<", "C", ">", ">", "<GLUE>">>)}
     [] k = "@retpa" -> Wrapped("ret", <<":">>, CoreTypes \cup PredTypes, <<>>, {"amb"})
     [] k = "@retasync" -> {F(<<"ret-promise">>, {}, <<":", "Promise", "<", "T", ">">>),
                            F(<<"ret-promise2">>, {"amb", "rich"}, <<":", "Promise", "<", "A", "<", "B", ">", ">">>)}
